@@ -303,7 +303,7 @@ theorem judgeEfun_events (sc : Scripts) (cs : List Cmd) : judgeEfun (events sc c
 /-- the part of the top theorem proved here: the clause oracles for `twice` / `outside` / `crash` / `malformed`
     and for `efun` accept every trace of the model -/
 theorem judgeEv_events_eq_data (sc : Scripts) (cs : List Cmd) :
-    judgeEv (events sc cs) = judgeFifo (events sc cs) ++ judgeLive (events sc cs) := by
+    judgeEv (events sc cs) = judgeFifo (events sc cs) ++ judgeLive (events sc cs) ++ judgeOrder (events sc cs) := by
   unfold judgeEv
   rw [judgeStruct_events, judgeEfun_events]
   rfl
